@@ -532,6 +532,24 @@ func (se *SpecEnv) callSpec(c *ast.CallExpr) Value {
 			return F.Forall(bn, F.Imp(rng, body))
 		}
 		return F.Exists(bn, F.And(rng, body))
+	case "reg": // reg(v): the unique r in [0,q) with r*R == v (mod q)  (exists since gcd(R,q)=1, checked: q odd)
+		fp := se.fr.v.fieldParams(se.pkg)
+		if fp == nil {
+			unsup("reg() outside a field package")
+		}
+		if fp.Q.Bit(0) == 0 {
+			unsup("reg(): modulus is even")
+		}
+		t := targ(0)
+		r := F.App("reg", SInt, t)
+		if _, done := F.Defs[r]; !done {
+			k := F.App("kreg", SInt, t)
+			F.AddDef(r, F.Eq(F.Mul(r, F.Int(fp.R)), F.Add(t, F.Mul(k, F.Int(fp.Q)))))
+			F.AddDef(r, F.And(F.Le(F.I64(0), r), F.Lt(r, F.Int(fp.Q))))
+			F.SetRange(r, big.NewInt(0), new(big.Int).Sub(fp.Q, big.NewInt(1)))
+		}
+		se.fr.v.assume("reg(v) denotes the unique residue r < q with r*R = v (mod q); existence uses gcd(R,q)=1 (q is odd: checked)")
+		return r
 	case "valw": // valw(w, t0, t1, ...): little-endian value of explicit w-bit words
 		w := targ(0)
 		var sum []*Term
@@ -556,8 +574,16 @@ func (se *SpecEnv) callSpec(c *ast.CallExpr) Value {
 		case *SliceV:
 			return F.Bool(a.Obj == nil)
 		case *IfaceV:
-			return se.fr.ifaceEq(se.state(), &IfaceV{}, a)
+			return se.fr.ifaceEq(se.state(), &IfaceV{V: se.fr.v.nilIface()}, a)
+		case *IteV:
+			x, okx := a.A.(*IfaceV)
+			y, oky := a.B.(*IfaceV)
+			if okx && oky {
+				nl := &IfaceV{V: se.fr.v.nilIface()}
+				return F.Ite(a.C, se.fr.ifaceEq(se.state(), nl, x), se.fr.ifaceEq(se.state(), nl, y))
+			}
 		}
+		unsup("isnil of %T", arg(0))
 	case "abs":
 		t := targ(0)
 		return F.Ite(F.Lt(t, F.I64(0)), F.Neg(t), t)
